@@ -249,7 +249,7 @@ func canon(v interface{}) interface{} {
 		}
 		return x
 	case string:
-		if strings.HasPrefix(x, "certik") && len(x) > 40 {
+		if (strings.HasPrefix(x, "certik") || strings.HasPrefix(x, "CERTIK")) && len(x) > 40 { // bech32 may be written in upper case
 			return hexOfBech(x)
 		}
 		if len(x) >= 20 && len(x) <= 40 && x[4] == '-' && x[10] == 'T' {
